@@ -124,7 +124,8 @@ fn hunt_prop(prop: &str) -> ! {
     }
     fn sets(ws: &[String], max: usize) -> Vec<Vec<String>> {
         let mut out = vec![];
-        for i in 0..ws.len() { out.push(vec![ws[i].clone()]); if max >= 2 { for j in i + 1..ws.len() { out.push(vec![ws[i].clone(), ws[j].clone()]); } } }
+        for i in 0..ws.len() { out.push(vec![ws[i].clone()]); if max >= 2 { for j in i + 1..ws.len() { out.push(vec![ws[i].clone(), ws[j].clone()]);
+            if max >= 3 { for k in j + 1..ws.len() { out.push(vec![ws[i].clone(), ws[j].clone(), ws[k].clone()]); } } } } }
         out
     }
     fn apply(b: &mut RegExpBuilder, flags: &[&str]) {
@@ -181,6 +182,15 @@ fn hunt_prop(prop: &str) -> ! {
                 if (v[0] == "--no-end-anchor") != out.starts_with('^') { fail(&v, &set, "^ present/absent against the options", &out) }
                 if (v[0] == "--no-start-anchor") != out.ends_with('$') { fail(&v, &set, "$ present/absent against the options", &out) }
                 if set.len() > 1 && set.contains(&String::new()) { continue }      // known finding KF1
+                for tc in &set { if re.find(tc).map(|m| m.as_str() == tc) != Some(true) { fail(&v, &set, &format!("find({:?}) does not return the whole test case", tc), &out) } }
+            } }
+            // overlapping shorthand classes (a digit is a word character): the order of the alternatives decides what a search returns (F11, F12)
+            let ws2: Vec<String> = ["a", "aa", "aaa", "aaaa", "1", "11", "111", "1111", "a1", "1a", "a-", "a--"].iter().map(|x| x.to_string()).collect();
+            for set in sets(&ws2, 3) { for v in [vec!["--digits", "--words", "--no-start-anchor"], vec!["--digits", "--words", "--no-end-anchor"], vec!["--digits", "--words", "--no-anchors"]] {
+                tried += 1;
+                let mut b = RegExpBuilder::from(&set); apply(&mut b, &v);
+                let out = b.build();
+                let Ok(re) = Regex::new(&out) else { fail(&v, &set, "the pattern does not compile", &out) };
                 for tc in &set { if re.find(tc).map(|m| m.as_str() == tc) != Some(true) { fail(&v, &set, &format!("find({:?}) does not return the whole test case", tc), &out) } }
             } }
         }
